@@ -188,8 +188,11 @@ class AbstractEval:
 
     def cmp(self, op, a, b) -> bool:
         if isinstance(op, (ast.Is, ast.IsNot)):
-            if isinstance(a, (Sym, App)) or isinstance(b, (Sym, App)):
-                same = term(a) == term(b) or self._atom(("is", term(a), term(b))) if term(a) != term(b) else True
+            if term(a) == term(b):
+                same = True
+            elif isinstance(a, (Sym, App)) or isinstance(b, (Sym, App)):
+                ta, tb = sorted([term(a), term(b)])
+                same = self._atom(("is", ta, tb))
             else:
                 same = a is b
             return same if isinstance(op, ast.Is) else not same
